@@ -309,6 +309,12 @@ def rand_cli(rng):
         inp = rand_input(rng, c["d"], z, rich=not js)
         if js:
             inp = inp.replace(b"\xff", b"q")
+    if rng.random() < 0.06:
+        # magic numbers at the very start of the input (byte order marks, #!, gzip, NUL) are data like any other
+        magic = rng.choice([b"\xef\xbb\xbf", b"\xef\xbb\xbf", b"\xff\xfe", b"\xfe\xff", b"#!", b"\x1f\x8b", b"\x00", b"\r\n"])
+        if mode in ("c", "l") or js:
+            magic = b"\xef\xbb\xbf"          # (these modes need valid UTF-8: U+FEFF)
+        inp = magic + inp
     c["in"] = inp
     if M:
         c["seg"] = [65536]
@@ -407,12 +413,12 @@ def big_io(chk, n, want=None):
 
 
 def count_thresholds(chk, modes):
-    """requests that touch the LAST parts of records with n = 2^k-1, 2^k, 2^k+1 parts (k = 4 … 14; 15 … 16385 fields, lines, characters or
-    bytes), answered by a plain python selection: code keyed to a count or a size (a first block of 16 KiB, a Vec that starts at 1024
+    """requests that touch the LAST parts of records with n = 2^k-1, 2^k, 2^k+1 parts (k = 4 … 16, and 46341; 15 … 65537 fields, lines, characters or
+    bytes — index × count products beyond 2^31 included), answered by a plain python selection: code keyed to a count or a size (a first block of 16 KiB, a Vec that starts at 1024
     entries, an index kept in 8 or 16 bits) shows here.  The model is not involved (it is quadratic in the input length)."""
     rng = chk.rng
-    ns = sorted({2 ** k + e for k in range(4, 15) for e in (-1, 0, 1)})
-    small_ns = [n for n in ns if n <= 4097] + rng.sample([n for n in ns if n > 4097], 2)
+    ns = sorted({2 ** k + e for k in range(4, 17) for e in (-1, 0, 1)} | {46341})          # … 65537; 46341² and 65537² leave the i32 range
+    small_ns = [n for n in ns if n <= 4097] + rng.sample([n for n in ns if 4097 < n < 60000], 2) + [65537]
     cases, exp = [], []
     for mode in modes:
         for n in (small_ns if (chk.tier == "quick" and mode == "M") else ns):
